@@ -111,12 +111,12 @@ Theorem sql_topk_smallest :
 Proof. exact sql_topk_smallest_l. Qed.
 
 (* ---- historical: the two defects found by this check, repaired in /repo ----
-   F-C24-2 (before fec49c7 `topk cmp 0 (x :: rows) = TPanic`): LIMIT 0 now returns no row *)
+   F-C24-2 (before 1f0a068 `topk cmp 0 (x :: rows) = TPanic`): LIMIT 0 now returns no row *)
 Theorem topk_limit0_empty :
   forall (A : Type) (cmp : A -> A -> comparison) rows, topk cmp 0 rows = TOk [].
 Proof. exact topk_limit0_empty_l. Qed.
 
-(* F-C24-1 (before 34f5e9d this table came back as [1; 2; 3], distance 2 before distance 0):
+(* F-C24-1 (before 26fae1f this table came back as [1; 2; 3], distance 2 before distance 0):
    the NULL-distance row sorts first, the others follow in distance order *)
 Theorem cosine_zero_vector_fixed :
   let rows := [(1, [-2; 0]); (2, [0; 0]); (3, [1; 0])]%Z in
